@@ -19,7 +19,11 @@ NOTE = ("Trusted: pyvc VC generator + sidecar contracts/ghost executor + z3/cvc5
         "periodic_disk_revolve). pyvc is itself checked on every run by a CPython cross-check (concrete "
         "execution of the iterators by the engine vs the real streams) and a model check of the spec-"
         "function axioms, and on every thorough run by a 44-mutant self-test. "
-        "Bounded clauses hold only inside their stated box and are never counted as discharged.")
+        "Bounded clauses hold only inside their stated box and are never counted as discharged; every "
+        "exhaustive box is run in ascending and descending parameter order and once more with a second "
+        "live schedule of the same class advanced in lockstep (no dependence on construction history or on "
+        "other instances), and a stream the reference executor cannot carry out also counts against the "
+        "optimum properties C05/C06/C07/C13/C19.")
 
 VC_CLASSES = ("SingleMemory/SingleDisk/None, Multistage, TwoLevel (symbolic period) and Mixed iterators")
 REV = ("For the Revolve family (Revolve, DiskRevolve, PeriodicDiskRevolve, HRevolve) the stream is a "
